@@ -200,11 +200,20 @@ func in(needle interface{}, array interface{}) bool {
 // range, a []int constant and an array literal holding the same numbers are
 // equal (as the language definition documents: 1..3 == [1, 2, 3]).
 func deepEqual(a, b interface{}) bool {
+	return deepEqualAt(a, b, 0)
+}
+
+func deepEqualAt(a, b interface{}, depth int) bool {
 	va, vb := reflect.ValueOf(a), reflect.ValueOf(b)
 	isSeq := func(v reflect.Value) bool {
 		return v.Kind() == reflect.Slice || v.Kind() == reflect.Array
 	}
 	if isSeq(va) && isSeq(vb) {
+		if depth > 64 {
+			// Nested this deep a sequence may well contain itself:
+			// reflect.DeepEqual detects cycles.
+			return reflect.DeepEqual(a, b)
+		}
 		if va.Len() != vb.Len() {
 			return false
 		}
@@ -213,7 +222,14 @@ func deepEqual(a, b interface{}) bool {
 			if !x.CanInterface() || !y.CanInterface() {
 				return reflect.DeepEqual(a, b)
 			}
-			if !equal(x.Interface(), y.Interface()).(bool) {
+			xi, yi := x.Interface(), y.Interface()
+			if isSeq(reflect.ValueOf(xi)) && isSeq(reflect.ValueOf(yi)) {
+				if !deepEqualAt(xi, yi, depth+1) {
+					return false
+				}
+				continue
+			}
+			if !equal(xi, yi).(bool) {
 				return false
 			}
 		}
